@@ -42,12 +42,12 @@ type Byte struct {
 func (f *Byte) Call(s *slip.Scope, args slip.List, depth int) slip.Object {
 	slip.CheckArgCount(s, depth, f, args, 2, 2)
 	size, ok := args[0].(slip.Fixnum)
-	if !ok {
-		slip.TypePanic(s, depth, "size", args[0], "fixnum")
+	if !ok || size < 0 {
+		slip.TypePanic(s, depth, "size", args[0], "non-negative fixnum")
 	}
 	var pos slip.Fixnum
-	if pos, ok = args[1].(slip.Fixnum); !ok {
-		slip.TypePanic(s, depth, "position", args[1], "fixnum")
+	if pos, ok = args[1].(slip.Fixnum); !ok || pos < 0 {
+		slip.TypePanic(s, depth, "position", args[1], "non-negative fixnum")
 	}
 	return slip.List{size, slip.Tail{Value: pos}}
 }
